@@ -4,7 +4,7 @@
 VERUS_TRUST = [
     'A3: vstd specifications of Vec, HashMap, slices, arrays (assumed to describe std)',
     'A4: Z3 4.12 and the Verus VC generator / Rust front end',
-    'extraction: tools/weave.py copies item text verbatim from /repo/src and applies only the desugaring rules R0-R21 and lift options of DESIGN.md 2.2 (applications counted per function in functions_under_contract)',
+    'extraction: tools/weave.py copies item text verbatim from /repo/src and applies only the desugaring rules R0-R27 and lift options of DESIGN.md 2.2 (applications counted per function in functions_under_contract)',
 ]
 
 PROPS = {
@@ -252,16 +252,19 @@ PROPS = {
               'bit i being bit size-1-i of the value (big-endian two\'s complement), for every 64-bit value and every size 0..=64, and '
               'wires_as_unsigned decodes them back whenever the value fits. Aggregate layout PROVED (Verus/Z3, structural induction per arm of the real '
               'Literal::as_bits, the recursive call being an opaque function returning the encoding of the part): an array literal, a tuple and a struct '
-              'encode to the concatenation of the encodings of their elements / fields in order, [e; n] to n copies of the encoding of e. The enum arm '
-              '(tag + zero-padded payload), the decoders, Literal::parse / Display, is_of_type and from_result_bits are NOT under contract (recursion over Literal with HashMap<String,_> lookups, closures, formatter): a '
+              'encode to the concatenation of the encodings of their elements / fields in order, [e; n] to n copies of the encoding of e; an enum literal '
+              'encodes to exactly enum_max_size bits: the tag number big-endian in the first enum_tag_size bits, then the encodings of the variant fields '
+              'in order, then zeros (given, as precondition, that the payload fits - enum_max_size is the maximum over the variants - and that '
+              'enum_tag_size / enum_max_size / enum_tag_number, which are not under contract, return the tag width, total size and tag number). '
+              'The decoders, Literal::parse / Display, is_of_type and from_result_bits are NOT under contract (recursion over Literal with HashMap<String,_> lookups, closures, formatter): a '
               'bounded differential check through compile / literal_arg / parse_arg / as_bits / eval / parse_output compares 19 types x random and '
               'boundary values with a reference model of the documented layout (size, exact bits, print-parse round trip, identity program) and 21 '
               'hostile literals (out-of-range numbers, permuted / duplicated / missing struct fields, wrong enum arity, inverted or oversized ranges) '
               'which must be refused or encode canonically, never panic.',
         note='Trusted: Kani/CBMC; Verus/Z3, vstd; Vec::extend with a vector argument modelled by a verified helper (R22), a range copy_from_slice by the loop it denotes (R23); '
              'the reference encoder in replay/src/c09.rs. Bounded part is labelled bounded and not counted as proved.',
-        title='literal encoding: integer encoders/decoders proved for all values and sizes (Kani), aggregate concatenation proved (Verus); enum layout, decoding, parsing, validation by bounded differential',
-        unverified=['Literal::as_bits enum and range arms, from_unwrapped_bits / from_result_bits', 'Literal::parse, Display', 'Literal::is_of_type',
+        title='literal encoding: integer encoders/decoders proved for all values and sizes (Kani), aggregate concatenation and enum layout proved (Verus); decoding, parsing, validation by bounded differential',
+        unverified=['Literal::as_bits range arm; enum_tag_size / enum_max_size / enum_tag_number; from_unwrapped_bits / from_result_bits', 'Literal::parse, Display', 'Literal::is_of_type',
                     'Evaluator::set_* / TryFrom<EvalOutput>'],
     ),
     'C12': dict(
@@ -286,24 +289,40 @@ PROPS = {
                     'const definition checking in check.rs', 'truncation of the 64-bit result to the declared width (unsigned_to_bits, see C09)'],
     ),
     'C10': dict(
-        units=['regalloc'],
+        units=['regalloc', 'convert', 'regcirc', 'ssacirc'],
         deps=[],
         witness=['c10', '--depth', '2', '--random', '100000'],
         witness_thorough=['c10', '--depth', '3', '--random', '20000000'],
         level='proof',
-        technique='Verus contract + allocator invariant on the real RegisterAllocator::find_out_reg; bounded differential check of the whole conversion on the real code',
-        claim='Deductive proof (Verus/Z3), for every allocator state satisfying the invariant (live wires in pairwise different registers, free list '
-              'duplicate-free and disjoint from live registers, all registers below next_reg): find_out_reg re-establishes the invariant, returns a '
-              'register that no live wire occupies and that is not on the free list (never clobbers a live value), allocates at most one new '
-              'register, unmaps exactly the operands that die at this gate and leaves every other mapping unchanged; the unreachable! is '
-              'unreachable. last_use_map and the conversion loop (impl Iterator over wires()) are NOT under contract: the end-to-end statement '
-              '(validates, same outputs on every input, inputs loaded in order, only written registers read, registers <= wires, same AND '
-              'count) is checked by a bounded differential (every valid SSA circuit with <= 2 (quick) / 3 (thorough) gates over 5 party '
-              'shapes and all single/double outputs, random circuits up to 13 gates with repeated operands and input/repeated outputs, '
-              'compiled programs with de-duplication on and off).',
-        note='Trusted: vstd HashMap/Vec specifications; next_reg < u32::MAX is a precondition (not checked by the caller). Bounded part labelled bounded.',
-        title='register conversion: the register-reuse decision never clobbers a live value (proved); whole conversion equivalent and safe (bounded differential)',
-        unverified=['last_use_map', 'RegisterAllocator::convert_circuit loop', 'register_circuit::Circuit::validate / eval (see C16)'],
+        technique='Verus contracts on the real conversion code: last_use_map, RegisterAllocator::new, convert_circuit (simulation invariant over the '
+                  'conversion loop, for every input assignment) and find_out_reg (allocator invariant), against spec functions for the value of an SSA wire '
+                  '(ssa_val) and of a register after n instructions (rv); the same spec functions are the postconditions of the real SSA and register eval, '
+                  'and the register validate is proved complete for what the conversion produces; bounded differential check of the whole conversion on the '
+                  'real code as a cross-check',
+        claim='Deductive proof (Verus/Z3), for every SSA circuit satisfying what Circuit::validate establishes (every gate reads earlier wires, an output, '
+              'outputs are wires, 2 * inputs + gates <= MAX_GATES) with at most u32::MAX parties: RegisterAllocator::new followed by convert_circuit returns a '
+              'register circuit r such that (1) r satisfies accepts_spec, and register Circuit::validate returns Ok on every circuit satisfying accepts_spec '
+              '(proved on the real validate, unit regcirc) - r passes its own validation; (2) the first sum(input_gates) instructions load the inputs party '
+              'by party and bit by bit into registers 0, 1, 2, ..; (3) for every input assignment of the declared shape and every k, the value of output '
+              'register k after the last instruction (rv) equals the value of SSA output wire k (ssa_val); the real register eval returns exactly rv and the '
+              'real SSA eval returns exactly ssa_val (units regcirc, ssacirc), so both evaluations return the same bits; (4) every register read was written '
+              'before (part of accepts_spec), every HashMap lookup of the conversion finds its key (a wire still needed is never released: last_use_map '
+              'returns a table that is not before any use of a wire and pins the outputs, proved) and the unreachable! is unreachable; (5) max_reg_count <= '
+              'number of wires; (6) and_ops equals the number of AND gates. find_out_reg (unit regalloc): for every allocator state satisfying the invariant '
+              '(live wires in pairwise different registers, free list duplicate-free and disjoint from live registers, all registers below next_reg) it '
+              're-establishes the invariant, returns a register that no live wire occupies and that is not on the free list, allocates at most one new '
+              'register, unmaps exactly the operands that die at this gate and leaves every other mapping unchanged. ASSUMED: the contract of '
+              'Circuit::wires() (sum(input_gates) input wires, then the gates in order). The three From impls (new + convert_circuit, 2 lines each) and '
+              'the composition with validate()/eval() calls are not under contract; the end-to-end statement is additionally checked by a bounded '
+              'differential (every valid SSA circuit with <= 2 (quick) / 3 (thorough) gates over 5 party shapes and all single/double outputs, random '
+              'circuits up to 13 gates with repeated operands and input/repeated outputs, compiled programs with de-duplication on and off).',
+        note='Trusted: vstd HashMap/Vec specifications; Circuit::wires() by contract (R24); `mut self` rewritten to a local (R28); HashMap indexing written as '
+             'get(..).unwrap() (R29); map + collect as the loop it denotes (R21b); the for loop with `continue` as a while loop (R24); Gate / Wire given '
+             'derive(Clone, Copy) in the verified text. SSA circuits with more than u32::MAX parties are outside the contract (`party as u32` would truncate; '
+             'such a circuit needs > 32 GB for input_gates alone). Bounded part labelled bounded.',
+        title='register conversion: equivalent for every input, passes its validation, loads inputs in order, register and AND counts (proved for all valid SSA circuits, modulo the assumed contract of Circuit::wires())',
+        unverified=['Circuit::wires() (contract assumed)', 'impl From<SsaCircuit / &SsaCircuit / &mut SsaCircuit> for Circuit (two-line wrappers: new + convert_circuit)',
+                    'SSA circuits with more than u32::MAX parties'],
     ),
     'C08': dict(
         units=['patterns', 'typing', 'patlower', 'branches'],
